@@ -44,9 +44,12 @@ HOSTILE_STR = NEUTRAL_STR + '"\'\\()\n\t'
 class Gen:
     """generator of abstract sheets; `hostile` widens content alphabets (strings/urls/comments)"""
 
-    def __init__(self, rng, hostile=False, namespaces=True, max_stmts=6, nonascii=False):
+    def __init__(self, rng, hostile=False, namespaces=True, max_stmts=6, nonascii=False, hostile_class=None):
         self.r = rng
         self.hostile = hostile
+        # one class of hostile content per sheet keeps known-finding attribution precise:
+        # 'string' (quotes, parentheses, tab), 'string-backslash', 'string-newline', 'url', 'comment', 'ident', 'nonascii'
+        self.hc = hostile_class
         self.use_ns = namespaces
         self.max_stmts = max_stmts
         self.nonascii = nonascii
@@ -55,20 +58,38 @@ class Gen:
 
     # ---- content --------------------------------------------------------------------------------------
     def text(self, maxlen=8):
-        pool = HOSTILE_STR if self.hostile else NEUTRAL_STR
-        pool = list(pool) + (['é', 'Ж', '中', '\U0001f600'] if self.nonascii or self.hostile else [])
+        pool = list(HOSTILE_STR if self.hostile else NEUTRAL_STR)
+        if self.hc == 'string':
+            pool += list('"\'()\t"\'') * 2
+        elif self.hc == 'string-backslash':
+            pool += ['\\'] * 12 + list('af09 ')
+        elif self.hc == 'string-newline':
+            pool += ['\n', '\n', '\r', '\f'] * 3
+        pool += ['é', 'Ж', '中', '\U0001f600'] if self.nonascii or self.hostile or self.hc == 'nonascii' else []
         return ''.join(self.r.choice(pool) for _ in range(self.r.randint(0, maxlen)))
 
+    def name(self, pool):
+        """an identifier: from the neutral pool, or one that needs escapes when written (hostile class 'ident')"""
+        if self.hc == 'ident' and self.r.random() < 0.4:
+            return self.r.choice(['1a', '9', 'a.b', 'a:b', 'a b', '-1x', 'x/y', 'a(b', 'a"b', "a'b", 'a~', '@a', '#a', 'a,b', 'a;b', 'a{b', 'a\\b', 'a\nb', 'a\x01b', '--', 'a!'])
+        if self.hc == 'nonascii' and self.r.random() < 0.4:
+            return self.r.choice(['é', 'Жя', '中文', 'ü-x', 'a\u00a0b', '\U0001f600'])
+        return self.r.choice(pool)
+
     def comment_text(self):
-        pool = list('abc xyz 123 {};:,.@#!"\'()[]') + (['\n', '*', '/', '\\', 'é'] if self.hostile else [])
+        pool = list('abc xyz 123 {};:,.@#!"\'()[]') + (['\n', '*', '/', '\\', 'é'] if self.hostile or self.hc == 'comment' else [])
+        if self.hc == 'comment':
+            pool += ['\n', '\n  ', '\\', '\\41 ', '*', '/ *']
         t = ''.join(self.r.choice(pool) for _ in range(self.r.randint(0, 8)))
         return t.replace('*/', '* /')
 
     def urltext(self):
         r = self.r
         base = r.choice(['a.png', 'img/b.gif', '../c.jpg', 'http://h.example/d/e.css', '/abs/f.png', 'x', 'data:image/png;base64,AAAA', 'q?v=1#frag'])
-        if self.hostile and r.random() < 0.5:
-            base += r.choice([' sp', '(p)', "'q", '"d', '\\b', ',c', 'é'])
+        if (self.hostile or self.hc == 'url') and r.random() < 0.5:
+            base += r.choice([' sp', '(p)', "'q", '"d', ',c', 'é', ';s', ' ', ')', '('])
+        if self.hc == 'url-backslash' and r.random() < 0.6:
+            base += r.choice(['\\b', '\\44', '\\'])
         return base
 
     # ---- components -----------------------------------------------------------------------------------
@@ -86,7 +107,7 @@ class Gen:
         r = self.r
         k = r.random()
         if k < 0.22:
-            return ('ident', r.choice(KEYWORDS))
+            return ('ident', self.name(KEYWORDS))
         if k < 0.45:
             return self.num()
         if k < 0.55:
@@ -152,23 +173,23 @@ class Gen:
 
     def typesel(self):
         r = self.r
-        name = '*' if r.random() < 0.15 else r.choice(ELEMENTS)
+        name = '*' if r.random() < 0.15 else self.name(ELEMENTS)
         return (self.nsprefix(), name)
 
     def part(self, allow_not=True):
         r = self.r
         k = r.random()
         if k < 0.25:
-            return ('class', r.choice(NAMES))
+            return ('class', self.name(NAMES))
         if k < 0.4:
-            return ('id', r.choice(NAMES))
+            return ('id', self.name(NAMES))
         if k < 0.6:
             op = r.choice(ATTR_OPS + [None, None])
             val = None
             quoted = False
             if op:
                 quoted = r.random() < 0.6
-                val = self.text(5) if quoted else r.choice(NAMES)
+                val = self.text(5) if quoted else self.name(NAMES)
             return ('attr', self.nsprefix(for_attr=True) if r.random() < 0.3 else None, r.choice(['href', 'title', 'lang', 'data-x', 'type']), op, val, quoted)
         if k < 0.72:
             return ('pc', r.choice(PSEUDO_CLASSES))
@@ -423,14 +444,23 @@ class Renderer:
         return text
 
     def name(self, text, first=True):
-        """an identifier whose characters may be written as escapes"""
-        if not self.s['escapes']:
-            return text
+        """an identifier: characters that are not name characters are always written as hex escapes; with the
+        'escapes' style ordinary name characters may be written as escapes too"""
         out = []
+        n = len(text)
+        alldash = n > 0 and set(text) == {'-'}
         for i, ch in enumerate(text):
+            nxt = text[i + 1] if i + 1 < n else ''
+            plain = (ch.isalnum() and ord(ch) < 128) or ch in '-_' or ord(ch) >= 0x80
+            needs = not plain
+            if first and ch.isdigit() and (i == 0 or (i == 1 and text[0] == '-')):
+                needs = True  # an identifier cannot start with a digit (or a hyphen and a digit)
+            if first and alldash and i == n - 1:
+                needs = True  # '-' / '--' alone are no identifiers
             r = self.r.random()
-            nxt = text[i + 1] if i + 1 < len(text) else ''
-            if r < 0.15 and ch.isalnum():
+            if needs:
+                out.append('\\%x ' % ord(ch))
+            elif self.s['escapes'] and r < 0.15 and ch.isalnum() and ord(ch) < 128:
                 h = '%x' % ord(ch)
                 width = self.r.randint(len(h), 6)
                 esc = '\\' + h.rjust(width, '0')
@@ -439,12 +469,11 @@ class Renderer:
                 elif nxt == '':
                     esc += ' '
                 out.append(esc)
-            elif r < 0.25 and ch in 'ghijklmnopqrstuvwxyzGHIJKLMNOPQRSTUVWXYZ_':
+            elif self.s['escapes'] and r < 0.25 and ch in 'ghijklmnopqrstuvwxyzGHIJKLMNOPQRSTUVWXYZ_':
                 out.append('\\' + ch)
             else:
                 out.append(ch)
-        res = ''.join(out)
-        return res
+        return ''.join(out)
 
     def prefix(self, p):
         if not self.escape_prefixes:
@@ -493,7 +522,7 @@ class Renderer:
     def comp(self, c):
         k = c[0]
         if k == 'ident':
-            return c[1]
+            return self.name(c[1]) if not c[1].isalnum() else c[1]
         if k == 'num':
             return self.number(c)
         if k == 'string':
